@@ -88,6 +88,7 @@ def tier_b(run, thorough):
     fails = []
     n_eval = 0
     n_pairs = 3
+    errs = []
     for n_rdm in (1, 2):
         for signs in itertools.product((1, -1, 0), repeat=n_pairs):
             vec = np.empty((n_rdm, n_pairs), dtype=object)
@@ -98,8 +99,12 @@ def tier_b(run, thorough):
             spec_sqrt = np.array([[sp.sqrt(v) if s > 0 else sp.Integer(0) for v, s in zip(row, signs)] for row in vec], dtype=object)
             for name, fn, spec in (('positive_transform', tr.positive_transform, spec_pos), ('sqrt_transform', tr.sqrt_transform, spec_sqrt)):
                 rd = RDMs(vec.copy(), dissimilarity_measure='euclidean')
-                with patched_np(['rsatoolbox.rdm.transform']):
-                    out = fn(rd).dissimilarities
+                try:
+                    with patched_np(['rsatoolbox.rdm.transform']):
+                        out = fn(rd).dissimilarities
+                except Exception as e:        # left the symbolic domain: undecided here, the bounded tier decides
+                    errs.append(f'{name}{signs}: {type(e).__name__}: {str(e)[:120]}')
+                    continue
                 ok, idx, diff = identical(out, spec)
                 n_eval += 1
                 if not ok or (signs == (1, -1, 0) and n_rdm == 1):
@@ -108,8 +113,10 @@ def tier_b(run, thorough):
                                    detail=f'{name} equals its formula for all reals with this sign pattern' if ok else f'differs at {idx}: {diff}')
                     if not ok:
                         fails.append((nm, name, dict(signs=list(signs), n_rdm=n_rdm, index=str(idx), difference=str(diff))))
-    run.obligation('C17/elementwise-transforms/B/all-sign-patterns', 'proved' if not fails else 'refuted', 'sympy-normal-form', 0.0,
-                   detail=f'{n_eval} (transform, sign pattern, n_rdm) cases: sqrt_transform = sqrt(max(x,0)), positive_transform = max(x,0)')
+    run.obligation('C17/elementwise-transforms/B/all-sign-patterns',
+                   'refuted' if fails else ('unknown' if errs else 'proved'), 'sympy-normal-form', 0.0,
+                   detail=(f'symbolic execution failed in {len(errs)} cases, first: {errs[0]}' if errs and not fails else '') +
+                   f'{n_eval} (transform, sign pattern, n_rdm) cases: sqrt_transform = sqrt(max(x,0)), positive_transform = max(x,0)')
     for o in sorted(OVERRIDES_USED):
         run.trust('engine B proxy override: ' + o)
     run.bounded_check('C17/B/elementwise', 'B', 'all real values; all 27 sign patterns of 3 entries x n_rdm in {1,2}', n_eval, n_eval,
